@@ -21,7 +21,13 @@ def run(ctx):
     # ---------------- parsers
     gs = [cfggen.family(i) for i in (2, 6, 0, 1, 7, 8)] + [cfggen.gen_cfg(rng, with_error=(rng.random() < 0.5)) for _ in range(45 if not thorough else 600)]
     recs, stats, ws = lrcommon.prepare_parsers(ctx, gs, flags=["-a"])
-    recs = [r for r in recs if r.bin][: (12 if not thorough else 200)]
+    recs = [r for r in recs if r.bin]
+    # parsers resolved with -a may loop on some inputs (every hang costs the driver's watchdog and a restart): conflict-free grammars and
+    # the seeded families first, at most a quarter conflicting ones
+    nmax = 12 if not thorough else 200
+    free = [r for r in recs if r.dump.get("numConflicts", 0) == 0]
+    conf = [r for r in recs if r.dump.get("numConflicts", 0) > 0]
+    recs = (free[: nmax - min(len(conf), nmax // 4)] + conf[: nmax // 4])[:nmax]
     total = 0
     reported = 0
     disagreements = 0
